@@ -180,6 +180,7 @@ class CallsMixin:
     def n_zeros(self, pos, kw, node, env):
         r = self._create(pos, kw, node)
         r.nonneg = True
+        r.note = 'zeros'
         return r
 
     def n_ones(self, pos, kw, node, env):
@@ -346,6 +347,7 @@ class CallsMixin:
         self.site('S-reshape', node, status, detail,
                   {'from': _ds(a.dims), 'to': _ds(new), 'order': order})
         r = ARR(tuple(new), a.dt)
+        r.lo = self.lo_of(a)
         r.org = a.org
         r.taint = a.taint
         r.lg = a.lg
@@ -420,6 +422,44 @@ class CallsMixin:
         self.site('S-transpose', node, 'ok')
         lay = tuple(a.lay[i] for i in perm) if a.lay is not None else None
         return a.copy(dims=tuple(a.dims[i] for i in perm), orth=None, lay=lay)
+
+    def n_squeeze(self, pos, kw, node, env):
+        a = self.as_arr(pos[0]) if pos else ARR(None)
+        axv = self.kwarg(pos, kw, 1, 'axis')
+        return self.do_squeeze(a, axv, node)
+
+    def do_squeeze(self, a, axv, node):
+        if a.dims is None:
+            return a.copy(orth=None)
+        if axv is not None and axv.k != 'none':
+            ax = self.axis_val(axv)
+            if isinstance(ax, int) and -len(a.dims) <= ax < len(a.dims):
+                d = list(a.dims)
+                del d[ax]
+                return a.copy(dims=tuple(d), orth=None, lay=None)
+            return a.copy(dims=None, orth=None, lay=None)
+        keep = []
+        amb = []
+        for d in a.dims:
+            if d is None:
+                return a.copy(dims=None, orth=None, lay=None)
+            c = d.as_int()
+            if c == 1:
+                continue
+            if c is None:
+                lb = lower_bound(d, self.I.opts.get('lower_bounds'))
+                if d.all_free() and (lb is None or lb < 2):
+                    amb.append(d)
+            keep.append(d)
+        if amb:
+            self.site('S-squeeze', node, 'violation',
+                      'squeeze() without axis on %s: the axis of size %r is '
+                      'dropped as well whenever it equals 1, so the number of '
+                      'axes of the result depends on the sizes'
+                      % (_ds(a.dims), amb[0]))
+        else:
+            self.site('S-squeeze', node, 'ok')
+        return a.copy(dims=tuple(keep), orth=None, lay=None)
 
     def n_swapaxes(self, pos, kw, node, env):
         a = self.as_arr(pos[0])
@@ -806,6 +846,17 @@ class CallsMixin:
         self.site('S-axis', node, 'ok')
         ax %= nd
         dims = tuple(d for i, d in enumerate(a.dims) if i != ax)
+        if len(dims) == 1 and dims[0] is not None and \
+                dims[0].as_int() is not None and dims[0].as_int() <= 8 and \
+                (dt or a.dt) == 'i' and a.org:
+            # per-column reduction of a caller's integer array (e.g. the
+            # largest index of every mode): independent quantities
+            tag = sorted(map(repr, a.org))[0]
+            r = ARR(dims, 'i')
+            fname = getattr(getattr(node, 'func', None), 'attr', 'red')
+            r.items = [INT(Poly.sym('%s(%s)[%d]' % (fname, tag, k)))
+                       for k in range(dims[0].as_int())]
+            return r
         lay = None
         if a.lay is not None:
             lay = tuple(l for i, l in enumerate(a.lay) if i != ax)
@@ -919,6 +970,10 @@ class CallsMixin:
         short = name.split('.')[-1]
         if v.k in ('int', 'float', 'bool'):
             r = FLOAT(taint=v.taint)
+            if short == 'sign':
+                r.deg = {}
+                r.lg = Lin(0)
+                return r
             if short in ('floor', 'ceil', 'rint'):
                 r = FLOAT(taint=v.taint)
                 if v.k == 'int':
@@ -1029,6 +1084,23 @@ class CallsMixin:
                     break
         self.site('G-log', node, 'ok' if safe else 'unknown', why)
 
+    def n_divide(self, pos, kw, node, env):
+        a, b = pos[0], pos[1]
+        r = self.arr_binop('/', self.as_arr(a) if a.k != 'arr' and
+                           not a.k in ('int', 'float', 'bool') else a,
+                           b, None, env)
+        wh = kw.get('where')
+        outv = kw.get('out')
+        if wh is not None and outv is not None:
+            # division only where the mask holds, `out` elsewhere: guarded
+            r.taint = a.taint | b.taint | outv.taint
+            self.site('G-div', node, 'ok', 'np.divide(..., out=, where=): '
+                      'masked division', construct='np.divide(where=)')
+        else:
+            out = r
+            self.division(out, a, b, node, env)
+        return r
+
     def n_maximum(self, pos, kw, node, env):
         a, b = self.as_arr(pos[0]), self.as_arr(pos[1])
         dims = self.broadcast(a.dims, b.dims, node)
@@ -1084,7 +1156,7 @@ class CallsMixin:
             return ARR(None, a.dt)
         d = list(a.dims)
         d[ax] = None if d[ax] is None or rp is None else d[ax] * rp
-        return ARR(tuple(d), a.dt, nonneg=a.nonneg)
+        return ARR(tuple(d), a.dt, nonneg=a.nonneg, lo=self.lo_of(a))
 
     def n_tile(self, pos, kw, node, env):
         a = self.as_arr(pos[0])
